@@ -1286,6 +1286,101 @@ def gen_roundtrip_case(rng):
     return case
 
 
+
+# ----------------------------------------------------------------------------
+# stream 3b (round j extension): rolls whose rows are TILED with runs -- touching runs of equal value (one note),
+# of rising and of falling value (two notes), runs from the first / to the last column, single empty frames -- judged
+# by the direct oracle and by Model.C13_Runs.check_decode_runs, the boolean form of the theorems
+# decoder_returns_maximal_runs / decoder_covers_every_cell_once evaluated on the implementation's OWN output
+
+
+def gen_runs_case(rng):
+    rows = rng.choice([128, 128, 88])
+    cols = rng.choice([1, 2, 3, 4, 6, 9, 16, 24])
+    pool = rng.choice([[1, 2, 3], [1, 64, 127], [5, 5, 7], [1, 1, 2], [127, 126, 1]])
+    used = sorted(set(rng.randrange(rows) for _ in range(rng.randint(1, 4))))
+    if rng.random() < 0.25:
+        used = sorted(set(used + [0, rows - 1]))
+    nz, feats = {}, set()
+    for r in used:
+        c, prev = 0, None      # prev = value of the run that ends exactly at c (None after a gap / at the start)
+        while c < cols:
+            if rng.random() < 0.25:
+                g = rng.choice([1, 1, 2])
+                if prev is not None and g == 1 and c + 1 < cols:
+                    feats.add("one_empty_frame_between_runs")
+                c, prev = c + g, None
+                continue
+            ln = rng.randint(1, 4)
+            v = rng.choice(pool)
+            if rng.random() < 0.03:
+                v = -rng.randint(1, 3)
+                feats.add("negative_value")
+            if prev is not None:
+                feats.add("touching_equal_value_one_note" if v == prev else "touching_rise" if v > prev else "touching_fall")
+            if c == 0:
+                feats.add("run_from_first_column")
+            if c + ln >= cols:
+                feats.add("run_to_last_column")
+            if ln == 1:
+                feats.add("one_frame_run")
+            for j in range(c, min(cols, c + ln)):
+                nz[(r, j)] = v
+            c, prev = c + ln, v
+    case = {"kind": "decode", "rows": rows, "cols": cols, "cells": sorted([r, c, v] for (r, c), v in nz.items()),
+            "time_div": rng.choice([1, 2, 4, 8, 8, 16, 3, 10]), "time_unit": rng.choice(["sec", "beat", "quarter", "div"]),
+            "container": rng.choice(["dense", "dense", "csc", "csr"]), "dtype": rng.choice(["int64", "int64", "int32", "int16", "int8"]),
+            "time_div_kind": rng.choice(["int", "int", "int", "np"])}
+    return case, sorted(feats)
+
+
+def run_runs_stream(ctx, n):
+    terms, kept = [], []
+    oracle_failed = set()
+    nviol = 0
+    for _ in range(n):
+        case, feats = gen_runs_case(ctx.rng)
+        got = run_impl_decode(case)
+        ctx.evaluations += 1
+        ctx.count("runs:cases")
+        ctx.count("runs:%d_rows" % case["rows"])
+        for f in feats:
+            ctx.count("runs:" + f)
+        if got["status"] == "ok":
+            ctx.count("runs:notes_returned", len(got["notes"]))
+        why = judge_decode(case, got)
+        if why:
+            nviol += 1
+            if nviol <= 3:
+                def fails(cells, case=case):
+                    return bool(judge_decode(dict(case, cells=cells)))
+                small = dict(case, cells=core.ddmin(case["cells"], fails))
+                ctx.violation(judge_decode(small) or why, {"case": small, "got": run_impl_decode(small)})
+            if got["status"] == "crash":
+                continue
+            oracle_failed.add(len(terms))   # the checker judges the implementation's output on its own: it is asked all the same
+        if len(case["cells"]) > 1:
+            ctx.nontrivial(json.dumps(case, sort_keys=True))
+        terms.append(c_decode_case(case, got))
+        kept.append((case, got))
+    if kept:
+        ctx.sample({"case": kept[0][0], "implementation": kept[0][1]}, limit=7)
+    failing = coq_failing_or_empty(ctx, "decode_runs", terms, "check_decode_runs", 250,
+                                   imports="From PV Require Import Model.C13 Model.C13_Runs.")
+    if not WITH_COQ:
+        return
+    if failing is None:
+        ctx.obligation("correspondence: pianoroll_to_notearray (maximal runs): no case left to compare (all failed the direct oracle)", False, "")
+        return
+    ctx.obligation("correspondence: Model.C13_Runs.check_decode_runs (every returned row a maximal run of its roll row, every non-zero cell "
+                   "in exactly one returned row of its value: the statement of decoder_returns_maximal_runs / decoder_covers_every_cell_once) "
+                   "holds of the implementation's pianoroll_to_notearray output on %d rolls tiled with touching runs" % len(terms),
+                   not failing, failing[:5])
+    for i in [k for k in failing if k not in oracle_failed][:5]:
+        ctx.violation("the note array returned by pianoroll_to_notearray is not the set of maximal runs of the roll (Model.C13_Runs.check_decode_runs)",
+                      {"case": kept[i][0], "got": kept[i][1]})
+
+
 def run_impl_roundtrip(case):
     import partitura.utils.music as M
 
@@ -2007,7 +2102,7 @@ def run(ctx):
                 "i1 / u1 / i2 / u2 / i8 (with pitch and velocity columns of the same width: an all-int8 / all-uint8 array).")
     ctx.trusted = ["Coq 8.16.1 kernel incl. vm_compute",
                    "harness/props/c13.py: array builder, run-length coding of toarray(), Coq term printers",
-                   "Model.C13 / Model.C13_Api boolean checkers check_pianoroll / check_pianoroll_asm / check_pc / check_decode / check_roundtrip / "
+                   "Model.C13 / Model.C13_Api boolean checkers check_pianoroll / check_pianoroll_asm / check_pc / check_decode / check_decode_runs (Model.C13_Runs) / check_roundtrip / "
                    "check_roundtrip_api (dense comparison by runs; note lists up to order)",
                    "object stream: the reference note array of a Part / Score / PerformedPart / Performance is the object's own note_array() "
                    "(note_array_from_part_list for a group or a list of parts)",
@@ -2023,7 +2118,7 @@ def run(ctx):
                        "velocity); not compared: sparse format, dtype, exception class, field order, ids, row order of the decoded array",
                        "pitches and velocities are Python/numpy integers, velocities 1..127 (i4 overflow and velocity 0 out of scope)"]
     global WITH_COQ
-    ok, why = ctx.coq_props(expect_min=56)
+    ok, why = ctx.coq_props(expect_min=64)
     WITH_COQ = bool(ok)
     quick = ctx.tier == "quick"
     rng = ctx.rng
@@ -2045,6 +2140,9 @@ def run(ctx):
     t0 = time.time()
     run_decode_stream(ctx, 400 if quick else 6000, 300 if quick else 3600)
     ctx.log("decode + round-trip streams %.1fs" % (time.time() - t0))
+    t0 = time.time()
+    run_runs_stream(ctx, 250 if quick else 4000)
+    ctx.log("maximal-runs stream %.1fs" % (time.time() - t0))
     run_history_stream(ctx, 220 if quick else 3000, (5, 10) if quick else (5, 16))
     if not ok and not ctx.violations:
         ctx.violation("proof obligations of Props/C13.v no longer check: " + why, {"theorem_or_build": why}, no_input=True)
